@@ -55,8 +55,24 @@ def run_tool(backend, entry, outdir, extra=None):
     return ok, out[-3000:]
 
 
+class RawModule:
+    """a hand-written family member: bridge text with its own harnesses; only the mirror is generated"""
+
+    def __init__(self, name, path, harness_tags):
+        self.name, self.path, self.harness_tags = name, path, harness_tags
+        self.order, self.methods, self.enums, self.structs, self.opaques = [], [], {}, {}, {}
+
+    def emit_lib(self, harness_text="", mirror_text="", mirror_mod="m"):
+        with open(self.path) as fh:
+            return fh.read().replace("/*MIRROR*/", mirror_text)
+
+
+RAW_MODULES = [RawModule("m0_holder", os.path.join(VERIF, "harness", "bridge_support", "m0_holder.rs"),
+                         {"c03_stored_fnmut_callback": ["C03", "C01"], "c03_stored_fn_callback": ["C03", "C01"]})]
+
+
 def modules_for(tier_, seed_):
-    mods = [f() for f in bridgegen.M0]
+    mods = [f() for f in bridgegen.M0] + list(RAW_MODULES)
     if tier_ == "thorough":
         for i in range(24):
             mods.append(bridgegen.random_module(seed_, i))
@@ -91,7 +107,11 @@ def prepare_module(mod, steps):
     cm, probs = cfront.load(os.path.join(d, "c"), d)
     if cm is None:
         raise RuntimeError("C front end failed on the headers of %s: %s" % (mod.name, probs))
-    gen = hgen_c.generate_all(mod, cm, steps=steps)
+    if isinstance(mod, RawModule):
+        cx = hgen_c.Ctx(mod, cm)
+        gen = {"text": "", "mirror": hgen_c.emit_mirror(cm, cx.names), "harnesses": dict(mod.harness_tags), "static": []}
+    else:
+        gen = hgen_c.generate_all(mod, cm, steps=steps)
     with open(lib, "w") as fh:
         fh.write(mod.emit_lib(harness_text=gen["text"], mirror_text=gen["mirror"]))
     with open(os.path.join(d, "harnesses.json"), "w") as fh:
@@ -243,7 +263,7 @@ def run_dialects(prop):
     ncorpus, probs = validate_fronts()
     out["inconclusive"] += probs
     for mod in mods:
-        if mod.name == "m0_callbacks":
+        if mod.name == "m0_callbacks" or isinstance(mod, RawModule):
             continue
         for which in ("dart", "kotlin"):
             try:
